@@ -202,6 +202,24 @@ def oracle(case, res, extra):
         return
     res.stats["uncompiled_exports"] += 1
     model_correspondence(case, out2, res)
+    # history: the document returned by an export belongs to the caller — editing it in place must not leak into later exports
+    snapshot = out.model_dump_json()
+    try:
+        for n_ in [out.program] + list(out.program.children):
+            for r_ in n_.resources:
+                r_.value = "123456789"
+            for p_ in n_.ports:
+                p_.size = "987654321"
+        again = r1.to_qref(B).model_dump_json()
+    except Exception as e:
+        again = None
+        res.stats["export_history_raised_" + type(e).__name__] += 1
+    if again is not None:
+        res.stats["export_histories"] += 1
+        if again != snapshot:
+            res.violation("failing-input", "exporting the same routine again after editing the first exported document in place gives a different document",
+                          {"qref": case.qref, "history": "to_qref, edit returned document in place, to_qref"}, "documents differ", "identical documents")
+            return
     sa, sb = struct_of(doc.program), struct_of(out2.program)
     if sa != sb:
         diff = [k for k in sa if sa[k] != sb[k]]
@@ -230,6 +248,20 @@ def oracle(case, res, extra):
         except Exception as e:
             res.violation("failing-input", f"exporting a compilation result raised {type(e).__name__}", {"qref": case.qref}, str(e)[:300], "a schema-valid document")
             return
+        # same history for the compilation result
+        try:
+            csnap = cout.model_dump_json()
+            for n_ in [cout.program] + list(cout.program.children):
+                for r_ in n_.resources:
+                    r_.value = "123456789"
+                for p_ in n_.ports:
+                    p_.size = "987654321"
+            if case.result.to_qref().model_dump_json() != csnap:
+                res.violation("failing-input", "exporting the same compilation result again after editing the first exported document in place gives a different document",
+                              {"qref": case.qref, "history": "CompilationResult.to_qref, edit returned document in place, to_qref"}, "documents differ", "identical documents")
+                return
+        except Exception as e:
+            res.stats["compiled_export_history_raised_" + type(e).__name__] += 1
         try:
             back = CompiledRoutine.from_qref(cdoc, B)
         except Exception as e:
